@@ -22,6 +22,119 @@ fn small_triples(pmax: u64) -> Vec<(u64, u64, u64)> {
     v
 }
 
+/// Closed form of the minimum service in a window of length `delta` (the harness's own; compared with
+/// the enumeration of all placements on every small case before it is used for huge parameters): nothing
+/// during the longest blackout B = (P-Q) + (D-Q), then Q units in a row, then P-Q without service, ...
+fn closed_sbf(q: u64, d: u64, p: u64, delta: u64) -> u128 {
+    let b = (p - q) as u128 + (d - q) as u128;
+    let delta = delta as u128;
+    if delta <= b {
+        return 0;
+    }
+    let y = delta - b;
+    (y / p as u128) * q as u128 + (y % p as u128).min(q as u128)
+}
+
+/// Least t with closed_sbf(t) >= demand.
+fn closed_inverse(q: u64, d: u64, p: u64, demand: u64) -> u128 {
+    if demand == 0 {
+        return 0;
+    }
+    let b = (p - q) as u128 + (d - q) as u128;
+    let k = ((demand - 1) / q) as u128;
+    b + k * p as u128 + (demand as u128 - k * q as u128)
+}
+
+/// Reservations with periods of 2^32 .. 2^45 slots: the library's values must equal the closed form
+/// (validated on the small cases) at the structural points, for tiny and for huge windows / demands.
+fn huge_reservation_case(rng: &mut Rng, rep: &mut CaseReport) {
+    let p = (1u64 << rng.range(32, 45)) + rng.range(0, 1 << 20);
+    let d = match rng.range(0, 2) {
+        0 => p,
+        1 => p - rng.range(0, p / 2),
+        _ => rng.range(1, p),
+    };
+    let q = match rng.range(0, 4) {
+        0 => d,
+        1 => rng.range(1, 1000).min(d),
+        2 => d - rng.range(0, 1000).min(d - 1),
+        _ => rng.range(1, d),
+    };
+    rep.sample = Some(jobj! {"Q" => q, "D" => d, "P" => p, "huge" => true});
+    rep.count("huge_reservations (period >= 2^32)", 1);
+    let b = (p - q) + (d - q);
+    let mut sups = vec![Sup::Constrained { q, d, p }];
+    if d == p {
+        sups.push(Sup::Periodic { q, p });
+    }
+    let mut deltas = vec![0, 1, 17, b, b + 1, b + q, b + q + 1, b + p, b + p + 1, b + p + q, 3 * p + 5];
+    let mut demands = vec![0, 1, 2, 5, q, q + 1, 2 * q, 2 * q + 1, 3 * q + 7];
+    for _ in 0..12 {
+        deltas.push(rng.range(0, u32::MAX as u64));
+        deltas.push(rng.range(0, 6 * p));
+        deltas.push(b + rng.range(0, 3) * p + rng.range(0, q.min(u32::MAX as u64)));
+        demands.push(rng.range(0, (u32::MAX as u64).min(5 * q)));
+        demands.push(rng.range(0, 5 * q));
+    }
+    for sup in &sups {
+        let kind = match sup {
+            Sup::Periodic { .. } => "Periodic",
+            _ => "Constrained",
+        };
+        let lib = sup.build();
+        for dl in &deltas {
+            let want = closed_sbf(q, d, p, *dl);
+            match guard(|| u64::from(lib.provided_service(Duration::from(*dl)))) {
+                Ok(got) => {
+                    rep.count("huge_sbf_values_compared", 1);
+                    if got as u128 != want {
+                        rep.violation(
+                            format!("C09 impl={} kind=provided_service-differs-from-minimum-over-placements (period >= 2^32)", kind),
+                            jobj! {"Q"=>q,"D"=>d,"P"=>p,"delta"=>*dl,"provided_service"=>got,"min_over_placements"=>want as u64},
+                        );
+                        return;
+                    }
+                }
+                Err(c) => {
+                    rep.violation(format!("C09 impl={} kind={}-in-provided_service class={} (period >= 2^32)", kind, c.kind, c.class()), jobj! {"Q"=>q,"D"=>d,"P"=>p,"delta"=>*dl,"caught"=>c.to_json()});
+                    return;
+                }
+            }
+        }
+        for dem in &demands {
+            let want = closed_inverse(q, d, p, *dem);
+            match guard(|| u64::from(lib.service_time(Service::from(*dem)))) {
+                Ok(got) => {
+                    rep.count("huge_service_time_values_compared", 1);
+                    if got as u128 != want {
+                        rep.violation(
+                            format!("C09 impl={} kind=service_time-not-least-inverse variant=specialised (period >= 2^32)", kind),
+                            jobj! {"Q"=>q,"D"=>d,"P"=>p,"demand"=>*dem,"service_time"=>got,"least_t_with_enough_service"=>want as u64},
+                        );
+                        return;
+                    }
+                }
+                Err(c) => {
+                    rep.violation(format!("C09 impl={} kind={}-in-service_time class={} (period >= 2^32)", kind, c.kind, c.class()), jobj! {"Q"=>q,"D"=>d,"P"=>p,"demand"=>*dem,"caught"=>c.to_json()});
+                    return;
+                }
+            }
+        }
+        if q == p {
+            // budget = period: a dedicated processor
+            for dl in &deltas {
+                if u64::from(lib.provided_service(Duration::from(*dl))) != *dl {
+                    rep.violation("C09 kind=full-budget-reservation-differs-from-dedicated".to_string(), jobj! {"Q"=>q,"P"=>p,"delta"=>*dl});
+                    return;
+                }
+            }
+        }
+    }
+    if q < d || d < p {
+        rep.nontrivial_key(&[q, d, p, 77]);
+    }
+}
+
 fn pmax(tier: Tier) -> u64 {
     match tier {
         Tier::Quick => 6,
@@ -57,9 +170,21 @@ impl Monitor for C09 {
         vec!["sbf_values_compared", "service_time_values_compared", "placements_enumerated"]
     }
 
+    fn unguarded_library_failure(&self, c: &crate::framework::Caught, rep: &mut CaseReport) -> bool {
+        // this property's objects must answer every query: a library panic / runaway loop that surfaces
+        // outside a guarded call (e.g. while the monitor inspects the shared cache) is a violation too
+        rep.violation(
+            format!("C09 kind=library-{}-outside-a-guarded-call class={}", c.kind, c.class()),
+            crate::jobj! {"caught" => c.to_json(), "case" => rep.sample.clone()},
+        );
+        true
+    }
     fn run_case(&self, index: u64, seed: u64, tier: Tier, rep: &mut CaseReport) {
         let mut rng = Rng::new(seed);
         let small = small_triples(pmax(tier));
+        if (index as usize) >= small.len() && index % 8 == 7 {
+            return huge_reservation_case(&mut rng, rep);
+        }
         let (q, d, p, exhaustive) = if (index as usize) < small.len() {
             let (q, d, p) = small[index as usize];
             (q, d, p, true)
@@ -131,6 +256,21 @@ impl Monitor for C09 {
                 }
                 rep.count("joint_placement_combinations_enumerated", joint);
             }
+            // the closed form used for huge parameters agrees with the enumeration
+            for (i, dl) in deltas.iter().enumerate() {
+                if closed_sbf(q, d, p, *dl) != oracle[i] as u128 {
+                    rep.inconclusive = Some(format!("oracle self-check failed: closed form {} vs enumeration {} at Q={} D={} P={} delta={}", closed_sbf(q, d, p, *dl), oracle[i], q, d, p, dl));
+                    return;
+                }
+            }
+            for dem in 0..=(*oracle.last().unwrap()) {
+                let least = deltas.iter().zip(oracle.iter()).find(|(_, s)| **s >= dem).map(|(t, _)| *t).unwrap();
+                if closed_inverse(q, d, p, dem) != least as u128 {
+                    rep.inconclusive = Some(format!("oracle self-check failed: closed inverse {} vs scan {} at Q={} D={} P={} demand={}", closed_inverse(q, d, p, dem), least, q, d, p, dem));
+                    return;
+                }
+            }
+            rep.count("closed_form_self_checks", 1);
             // the single canonical placement used by C07's evaluator attains the minimum
             let canon = SbfTable::canonical(Sup::Constrained { q, d, p }, hmax);
             for (i, dl) in deltas.iter().enumerate() {
